@@ -39,7 +39,7 @@ func c17Contents() [][]mockq.Rec {
 	veryDeepArr := strings.Repeat("[", 10000) + strings.Repeat("]", 10000)
 	return [][]mockq.Rec{
 		mk("\x00\xff\xfe\x80", "", "a", "\x1b[\x1b[;;;;m", strings.Repeat("é", 300), "<>{{}}%!s(MISSING)", "\"", "\\"),
-		mk(`{"a":{"b":[1,2`, deep, deepArr, `{"a":"b","a":{"a":"b"},"v":1e999,"":""}`, `{"_entry":5,"x y":"z"}`, `{"_entry":"{\"_entry\":1}","a":"\ud800"}`, `[1,2,3]`, `null`, `{"a":1}{"a":2}`),
+		mk(`{"a":{"b":[1,2`, deep, deepArr, `{"a":"b","a":{"a":"b"},"v":1e999,"":""}`, `{"_entry":5,"x y":"z"}`, `{"_entry":"{\"_entry\":1}","a":"\ud800"}`, `[1,2,3]`, `null`, `{"a":1}{"a":2}`, `{"tags":["a",null],"a":[null]}`, `{"a":{"b":[{"c":null},null,[null]]}}`),
 		mk(`a="x`, `==`, `a=b=c`, `"`, `a= b= =c`, "a=\x00 b=\xff", `k="\xzz"`, `a="unterminated \"`, strings.Repeat("k=v ", 500)),
 		mk(`v=1e999 d=99999999h sz=99999999999999999999EB`, `v=-0 d=-1ns sz=-1KB`, `v=9223372036854775808 d=9223372036854775807ns sz=18446744073709551616b`, `v=NaN d=NaN sz=NaN`, `v=Inf d=+Inf sz=0x10`, `v=1e-999 d=0.0000000001ns sz=1.5.5MB`, `{"v":1e999,"d":"9e99h","sz":"1e99gb","ip":"999.999.999.999"}`),
 		mk(`GET /a 200 10.0.0.1 ::ffff:1.2.3.4 1.2.3.4.5.6 ::::::`, `ip=::1 ip2=1::1::1 addr=256.1.1.1`, `a b c d e f`, `[x] "y"`, `<a> <b>`),
@@ -56,6 +56,8 @@ type c17Input struct {
 	Query   string `json:"query"`
 	Content int    `json:"content"`
 	Range   bool   `json:"range"`
+	// Sparse: a range query whose step (4 s) exceeds the usual [1s]/[2s] ranges, with records between the windows
+	Sparse bool `json:"sparse,omitempty"`
 }
 
 type evalOutcome struct {
@@ -80,6 +82,9 @@ func c17EvalOnce(in c17Input, timeout time.Duration) evalOutcome {
 		params := logqlengine.EvalParams{Start: otelstorage.Timestamp(5 * sec17), End: otelstorage.Timestamp(5 * sec17), Limit: 100}
 		if in.Range {
 			params = logqlengine.EvalParams{Start: otelstorage.Timestamp(2 * sec17), End: otelstorage.Timestamp(6 * sec17), Step: time.Second, Limit: -1}
+		}
+		if in.Sparse {
+			params = logqlengine.EvalParams{Start: otelstorage.Timestamp(1 * sec17), End: otelstorage.Timestamp(13 * sec17), Step: 4 * time.Second, Limit: 3}
 		}
 		_, err := eng.Eval(context.Background(), in.Query, params)
 		if err != nil {
@@ -140,6 +145,9 @@ func c17Query(r *vkit.Run, text string) bool {
 				return false
 			}
 		}
+		if !c17Eval(r, c17Input{Query: text, Content: c, Range: true, Sparse: true}) {
+			return false
+		}
 	}
 	return true
 }
@@ -148,10 +156,11 @@ var c17Vocab = []string{
 	"{", "}", "(", ")", "[", "]", ",", "=", "!=", "=~", "!~", "|=", "|~", "|", "==", ">", ">=", "<", "<=", "+", "-", "*", "/", "%", "^",
 	"and", "or", "unless", "by", "without", "bool", "on", "ignoring", "group_left", "offset", "unwrap", "json", "logfmt", "regexp", "pattern", "unpack",
 	"line_format", "label_format", "decolorize", "drop", "keep", "distinct", "ip", "bytes", "duration", "sum", "topk", "sort", "count_over_time", "rate", "quantile_over_time", "first_over_time", "absent_over_time",
-	"vector", "label_replace", "a", "v", `"x"`, `"("`, `"{{.a}}"`, `"{{"`, `"<a> <b>"`, "5", "0", "0.5", "5m", "5kb", `{a="b"}`, "{}", "[1s]", "--x", ".",
+	"vector", "label_replace", "a", "v", `"x"`, `"("`, `"{{.a}}"`, `"{{"`, `"<a> <b>"`, "5", "0", "0.5", "5m", "5kb", `{a="b"}`, "{}", "[1s]", "[2s]", "--x", ".",
 }
 
 func c17Run(r *vkit.Run) {
+	vkit.StallSeconds = 400 // C17 runs its own 20 s / 120 s watchdog per evaluation
 	thorough := r.Thorough()
 	idx := 0
 	stop := false
